@@ -7,6 +7,7 @@
    the reference reader builds, one uniform layout, and re-encode -> parse returns the same tree. *)
 EXTENDS WKTParser, Json, IOUtils
 Recs == ndJsonDeserialize(IOEnv.TRACEFILE)
+FG == INSTANCE FlatGeom
 
 SameEvents(ml, gl) ==
   /\ Len(ml) = Len(gl)
@@ -28,6 +29,7 @@ Clause(r, f) ==
     [] Agree(r, f) /\ ~r.weak /\ ~SameEvents(f.log, r.events) -> "validator-events"
     [] r.vclass = "acc" /\ Agree(r, f) /\ r.l # FinalLayout(f) -> "layout"
     [] r.vclass = "acc" /\ ~r.uniform -> "mixed-layouts-in-result"
+    [] r.vclass = "acc" /\ (\E k \in DOMAIN r.wf : ~FG!WellFormedObj(r.wf[k])) -> "ill-formed-result"   \* C01: "any decoder"
     [] r.vclass = "acc" /\ Agree(r, f) /\ r.hastoks /\ r.tree # Tree(r.toks) -> "tree"
     [] r.vclass = "acc" /\ (r.tree2 # r.tree \/ r.l2 # r.l) -> "reencode-reparse"
     [] r.vclass = "acc" /\ Agree(r, f) /\ r.hastoks /\ r.ltoks # r.want -> "lexer-tokens"
